@@ -519,6 +519,12 @@ func main() {
 	// named types of own packages: struct layouts and method sets (T and *T)
 	named := J{}
 	globals := J{}
+	consts := J{}
+	pkgpaths := []string{}
+	for sp := range ownSet {
+		pkgpaths = append(pkgpaths, sp.Pkg.Path())
+	}
+	sort.Strings(pkgpaths)
 	for sp := range ownSet {
 		names := []string{}
 		for n := range sp.Members {
@@ -546,6 +552,8 @@ func main() {
 					d["methods:"+tstr(tt)] = ms
 				}
 				named[tstr(t)] = d
+			case *ssa.NamedConst:
+				consts[sp.Pkg.Path()+"."+n] = operand(m.Value)
 			case *ssa.Global:
 				globals[m.String()] = J{"t": tstr(m.Type()), "elem": tstr(m.Type().(*types.Pointer).Elem())}
 			}
@@ -567,7 +575,7 @@ func main() {
 			}
 		}
 	}
-	res := J{"module": modPath, "types": typeTab, "funcs": funcs, "named": named, "globals": globals, "contracts": contracts}
+	res := J{"module": modPath, "types": typeTab, "funcs": funcs, "named": named, "globals": globals, "contracts": contracts, "consts": consts, "pkgs": pkgpaths}
 	b, err := json.Marshal(res)
 	if err != nil {
 		panic(err)
